@@ -279,6 +279,9 @@ type Alias struct {
 	UnnamedAddr string
 	Partition   string
 	IFunc       bool
+	// BareExpr: an aliasee that is a bitcast/getelementptr/addrspacecast/inttoptr expression is written
+	// without its leading type (`alias i8, getelementptr (...)`), the form compilers emit.
+	BareExpr bool
 }
 
 type Comdat struct {
@@ -389,6 +392,7 @@ type UseListOrder struct {
 
 // Printer renders a module as LLVM assembly. Noise functions may vary spellings.
 type Printer struct {
+	inNode   int // depth inside metadata node bodies (inline placement of referenced nodes is only drawn there)
 	sb       strings.Builder
 	nums     map[any]int // local numbering of the current function
 	gnums    map[any]int // numbering of unnamed globals
@@ -543,6 +547,19 @@ func (p *Printer) Module(m *Module) string {
 	if m.Triple != "" {
 		p.w("target triple = %s\n", QuoteStr(m.Triple))
 	}
+	// type aliases (noise): defined before anything can use them, each chain in order
+	var aliased []string
+	for base := range noise.TypeAlias {
+		aliased = append(aliased, base)
+	}
+	sort.Strings(aliased)
+	for _, base := range aliased {
+		prev := base
+		for _, name := range noise.TypeAlias[base] {
+			p.w("%%%s = type %s\n", QuoteName(name), prev)
+			prev = "%" + QuoteName(name)
+		}
+	}
 	for _, t := range m.order() {
 		p.comment()
 		switch t.K {
@@ -679,7 +696,14 @@ func (p *Printer) alias(a *Alias) {
 		kw = "ifunc"
 	}
 	head := join(a.Linkage, a.Preemption, a.Visibility, a.DLL, tlsStr(a.TLS), a.UnnamedAddr, kw)
-	p.w("%s = %s %s, %s", p.gname(a, a.Name), head, a.T, p.constTV(a.Aliasee))
+	aliasee := p.constTV(a.Aliasee)
+	if a.BareExpr && a.Aliasee.K == CExpr {
+		switch a.Aliasee.Expr.Op {
+		case "bitcast", "getelementptr", "addrspacecast", "inttoptr":
+			aliasee = strings.TrimPrefix(aliasee, a.Aliasee.T.String()+" ")
+		}
+	}
+	p.w("%s = %s %s, %s", p.gname(a, a.Name), head, a.T, aliasee)
 	if a.Partition != "" {
 		p.w(", partition %s", QuoteStr(a.Partition))
 	}
@@ -1211,6 +1235,9 @@ func (p *Printer) mdField(f *MDField, asValue bool) string {
 	case MDValue:
 		return p.constTV(f.C)
 	case MDRef:
+		if p.inNode > 0 && p.inNode < 4 && !asValue && !f.Node.Distinct && noise.InlineMD[f.Node.Kind] && f.Node.Kind != "{}" {
+			return p.mdNodeBody(f.Node)
+		}
 		return fmt.Sprintf("!%d", f.Node.ID)
 	case MDInline:
 		return p.mdNodeBody(f.Node)
@@ -1230,6 +1257,8 @@ func (p *Printer) mdField(f *MDField, asValue bool) string {
 }
 
 func (p *Printer) mdNodeBody(n *MDNode) string {
+	p.inNode++
+	defer func() { p.inNode-- }()
 	d := ""
 	if n.Distinct {
 		d = "distinct "
